@@ -171,6 +171,11 @@ ZeroMeansClean == (AtEnd /\ ~Cut /\ acc.exit = 0) =>
     /\ (Cli \/ \A ph \in {2, 3, 4} : (Enabled(ph) /\ PhaseStatus(ph) # {}) =>
           \A op \in 1..Hdr.nops : \E r \in acc.rep : r[1] = ph /\ r[2] = op /\ r[3] \in {"success", "skip"})
 ExitCodeSet == (AtEnd /\ ~Cli) => acc.exit \in {0, 1}
+(* "the exit code is zero only if every selected operation was either TESTED without a failing check or explicitly reported as
+   skipped": an operation reported as passed in a unit phase has received at least one request during the run (with unique-inputs
+   a later phase may legitimately have nothing new to send, so the requests of all phases count) *)
+TestedMeansSent == (AtEnd /\ ~Cut /\ ~Cli /\ acc.exit = 0) =>
+    \A r \in acc.rep : (r[1] \in {2, 3, 4} /\ r[3] = "success" /\ r[2] # 0) => \E x \in acc.sent : x[2] = r[2]
 
 (* ---------------- C12 ---------------- *)
 SentCount(ph, op) == Cardinality({x \in acc.sent : x[1] = ph /\ x[2] = op})
@@ -200,7 +205,7 @@ StepCountRespected == ~acc.stepsBad
 RateRespected == ~acc.rateBad
 
 AllOK == /\ ProtocolOK /\ EndProtocolOK /\ NoCrash /\ Terminates /\ NoProblemLost /\ CliExitCode /\ DeliveredFailureCounts /\ SchemaErrorsReported /\ UnserializableReported /\ FailuresRecordedWithRequest
-         /\ ZeroMeansClean /\ ExitCodeSet /\ MaxExamplesRespected /\ MaxFailuresRespected /\ LaterPhasesSkipped
+         /\ ZeroMeansClean /\ ExitCodeSet /\ TestedMeansSent /\ MaxExamplesRespected /\ MaxFailuresRespected /\ LaterPhasesSkipped
          /\ NoScenarioAfterStop /\ AtMostOneSendAfterStop /\ UniqueInputs /\ RateRespected /\ StepCountRespected
 
 ViolatedClauses ==
@@ -216,6 +221,7 @@ ViolatedClauses ==
     (IF ~FailuresRecordedWithRequest THEN {"C05 FailuresRecordedWithRequest"} ELSE {}) \cup
     (IF ~ZeroMeansClean THEN {"C05 ZeroMeansClean"} ELSE {}) \cup
     (IF ~ExitCodeSet THEN {"C05 ExitCodeSet"} ELSE {}) \cup
+    (IF ~TestedMeansSent THEN {"C05 TestedMeansSent"} ELSE {}) \cup
     (IF ~MaxExamplesRespected THEN {"C12 MaxExamplesRespected"} ELSE {}) \cup
     (IF ~MaxFailuresRespected THEN {"C12 MaxFailuresRespected"} ELSE {}) \cup
     (IF ~LaterPhasesSkipped THEN {"C12 LaterPhasesSkipped"} ELSE {}) \cup
